@@ -34,7 +34,7 @@ LEVEL_TEXT = (
 LEVEL_NOTE = "Trusted: Python float modulo (exact on the lattice), fractions for the width/representability decision off-lattice."
 TECHNIQUE = "runtime postcondition monitor with an exact modular-arithmetic oracle plus verde.inside applied to the returned values; exhaustive 5-degree lattice + seeded off-lattice and rejection workload"
 FLOORS = {
-    "quick": {"eval:region": 12000, "eval:longitudes": 12000, "eval:inside": 12000, "eval:rejection": 300, "distinct_nontrivial": 2500, "eval:forms": 40, "class:longitude_subset_calls": 8000, "class:mixed_dtype_coordinates": 40, "class:point_spelling_python": 150, "class:point_spelling_zero_d": 150, "class:invalid_value_among_undefined": 15, "class:concurrent_calls": 1000},
+    "quick": {"eval:region": 12000, "eval:longitudes": 12000, "eval:inside": 12000, "eval:rejection": 300, "distinct_nontrivial": 2500, "eval:forms": 40, "class:longitude_subset_calls": 8000, "class:mixed_dtype_coordinates": 40, "class:point_spelling_python": 150, "class:point_spelling_zero_d": 150, "class:invalid_value_among_undefined": 15, "class:all_zero_coordinates": 80, "class:same_object_longitude_and_latitude": 80, "class:concurrent_calls": 1000},
     "thorough": {"eval:region": 40000, "eval:longitudes": 40000, "eval:inside": 40000, "eval:rejection": 3000, "distinct_nontrivial": 20000},
 }
 JOBS = {"quick": 1, "thorough": 16}
@@ -120,6 +120,10 @@ def install(tap, run):
             run.violation("region", "valid representable region raised %r" % (ev.exc,), witness, key="raised:" + type(ev.exc).__name__)
             return
         if has_coords:
+            if not (isinstance(ev.result, tuple) and len(ev.result) == 2):
+                run.evaluated("longitudes")
+                run.violation("longitudes", "coordinates were given but the call returned only %s (no coordinates)" % type(ev.result).__name__, dict(witness, result=repr(ev.result)[:300]), key="lon:not-returned")
+                return
             new_coords, new_region = ev.result
         else:
             new_coords, new_region = None, ev.result
@@ -402,6 +406,17 @@ def run_case(run, tap, stream, index, rng):
                                   ("int", (int(lon_value), int(lat_value)))):
                     vd.longitude_continuity(list(pt), region)
                     run.count("class:point_spelling_" + spell)
+            # degenerate point sets: everything at longitude 0 / latitude 0 (falsy values), single points at the origin
+            for zero in ([0.0, 0.0], [0, 0], [np.zeros(3), np.zeros(3)], [np.array(0.0), np.array(0.0)], [np.zeros((2, 2)), np.zeros((2, 2))], [np.zeros(4), np.zeros(4), np.zeros(4)]):
+                vd.longitude_continuity(zero, region)
+                vd.longitude_continuity(zero, [-30.0, 30.0, -10.0, 10.0])
+                run.count("class:all_zero_coordinates", 2)
+            # argument aliasing: the very same object as longitude and latitude (points on the diagonal), values the wrap changes
+            for same in (np.array([-30.0, -5.0, 0.0, 20.0, 60.0]), np.array([[-80.0, 10.0], [45.0, -1.0]]), -3, np.float64(-45.0)):
+                vd.longitude_continuity([same, same], [0.0, 100.0, -90.0, 90.0])
+                vd.longitude_continuity((same,) * 2, [300.0, 60.0, -90.0, 90.0])
+                vd.longitude_continuity([same, same, same], [-100.0, 100.0, -90.0, 90.0])
+                run.count("class:same_object_longitude_and_latitude", 3)
             cf, rf = vd.longitude_continuity((np.asfortranarray(lon2d), np.ascontiguousarray(lat2d.T).T), tuple(region))
             if not (np.array_equal(cf[0], c2d[0]) and np.array_equal(np.asarray(rf, dtype=float), np.asarray(r2d, dtype=float))):
                 run.violation("forms", "the result depends on the memory layout of the coordinate arrays", {"region": region}, key="forms-layout")
